@@ -1095,9 +1095,12 @@ class CodeGenerator(StructuredCodeGenerator):
                 eliminate_self_dependencies, expand_IfThenElse,
                 isolate_function_arguments, isolate_function_calls)
             ast = eliminate_self_dependencies(ast)
+            # Conditional expressions are expanded first, so that whatever
+            # gets isolated out of one of their branches below inherits
+            # that branch's guard.
+            ast = expand_IfThenElse(ast)
             ast = isolate_function_arguments(ast)
             ast = isolate_function_calls(ast)
-            ast = expand_IfThenElse(ast)
 
             if print_ast:
                 print(ast)
